@@ -258,6 +258,65 @@ def coupled(rc):
         rc.ob(f"{name} maintains {got}")
         if len(got) != 3:
             rc.fail(m, m.node, f"{name} must maintain state_names, name_to_no and no_to_name together", construct=f"{name} three maps")
+    # the two lookup maps are the enumeration of the declared state list and its inverse; the accessors read the right one
+    st = mix.methods.get("store_state_names")
+    if st is None:
+        raise AnalysisError("StateNameMixin.store_state_names vanished")
+    def _enum_map(attr, key_is_name):
+        """the per-variable map stored into self.<attr>[k]: -> 'ok' | reason (wrong) ; raises when the shape is unknown (cannot decide)"""
+        asg = [n for n in ast.walk(st.node) if isinstance(n, ast.Assign) and isinstance(n.targets[0], ast.Subscript) and norm(n.targets[0].value) == f"self.{attr}"]
+        if len(asg) != 1:
+            raise AnalysisError(f"store_state_names: expected one store into self.{attr}[…], found {len(asg)}")
+        v = asg[0].value
+        if not (isinstance(v, ast.DictComp) and len(v.generators) == 1 and isinstance(v.generators[0].iter, ast.Call) and call_name(v.generators[0].iter) == "enumerate"
+                and isinstance(v.generators[0].target, ast.Tuple) and len(v.generators[0].target.elts) == 2):
+            raise AnalysisError(f"store_state_names: self.{attr}[…] is not a comprehension over enumerate(…): `{norm(v, 80)}`")
+        en = v.generators[0].iter
+        no, name = (norm(x) for x in v.generators[0].target.elts)
+        if len(en.args) != 1 or en.keywords:
+            return asg[0], "the enumeration does not start at 0"
+        src = norm(en.args[0])
+        if not (src.startswith("self.state_names[") or src in {norm(t) for lp in ast.walk(st.node) if isinstance(lp, ast.For) for t in ([lp.target.elts[1]] if isinstance(lp.target, ast.Tuple) and len(lp.target.elts) == 2 else [])}):
+            return asg[0], f"it enumerates `{src}`, not the declared state list of the variable"
+        want = (name, no) if key_is_name else (no, name)
+        if (norm(v.key), norm(v.value)) != want:
+            return asg[0], f"it maps {norm(v.key)} -> {norm(v.value)}"
+        return asg[0], "ok"
+    for attr, kin in (("name_to_no", True), ("no_to_name", False)):
+        node_, verdict = _enum_map(attr, kin)
+        rc.ob(f"store_state_names: self.{attr}[k] = {norm(node_.value, 70)}: {verdict}")
+        if verdict != "ok":
+            rc.fail(st, node_, f"store_state_names: self.{attr} must map each declared state {'to its position' if kin else 'position to its state'} in the declared list ({verdict}); "
+                    "every lookup of evidence, reduce, assignment and sampling goes through these maps", construct=f"state map {attr}")
+    dflt = tm.find_all(st.node, "self.state_names = {_v: list(range(int(cardinality[_i]))) for _i, _v in enumerate(variables)}", nested=True)
+    dmap = tm.find_all(st.node, "self.name_to_no = {_v: {_j: _j for _j in range(int(cardinality[_i]))} for _i, _v in enumerate(variables)}", nested=True)
+    dinv = tm.find_all(st.node, "self.no_to_name = self.name_to_no.copy()", nested=True) or \
+        tm.find_all(st.node, "self.no_to_name = {_v: {_j: _j for _j in range(int(cardinality[_i]))} for _i, _v in enumerate(variables)}", nested=True)
+    rc.ob(f"store_state_names: defaults 0..card-1 per variable {bool(dflt)}/{bool(dmap)}/{bool(dinv)}")
+    if not (dflt and dmap and dinv):
+        # a recognisably wrong pairing (the cardinality is not indexed by the variable's own position) is a finding; any other shape cannot be decided
+        whole = [n for n in ast.walk(st.node) if isinstance(n, ast.Assign) and norm(n.targets[0]) in ("self.state_names", "self.name_to_no") and isinstance(n.value, ast.DictComp)
+                 and isinstance(n.value.generators[0].iter, ast.Call) and call_name(n.value.generators[0].iter) == "enumerate"]
+        wrong = []
+        for n in whole:
+            tgt = n.value.generators[0].target
+            idx = norm(tgt.elts[0]) if isinstance(tgt, ast.Tuple) else None
+            subs = [norm(x.slice) for x in ast.walk(n.value.value) if isinstance(x, ast.Subscript) and norm(x.value) == "cardinality"]
+            if subs and any(sl != idx for sl in subs):
+                wrong.append(n)
+        if wrong:
+            rc.fail(st, wrong[0], "store_state_names: without declared names every variable gets the states 0..card-1 of ITS OWN cardinality (paired by position): "
+                    f"`{norm(wrong[0].value, 70)}`", construct="default state names per variable")
+        else:
+            raise AnalysisError("store_state_names: default state names have an unknown shape")
+    for name, mp, arg in (("get_state_names", "no_to_name", "state_no"), ("get_state_no", "name_to_no", "state_name")):
+        m = mix.methods.get(name)
+        if m is None:
+            raise AnalysisError(f"StateNameMixin.{name} vanished")
+        okr = any(tm.is_(r.value, f"self.{mp}[var][{arg}]") is not None for r in ast.walk(m.node) if isinstance(r, ast.Return) and r.value is not None)
+        rc.ob(f"{name} reads self.{mp}[var][{arg}]: {okr}")
+        if not okr:
+            rc.fail(m, m.node, f"{name} must answer from self.{mp}[var][{arg}]", construct=f"{name} map")
     # equality / hash permute a copy, never an operand
     summ = shared.summaries(repo)
     for name in ("__eq__", "__hash__"):
@@ -326,6 +385,12 @@ def defuse(rc):
     _sh.defuse_rule(rc, _sh.anchor_files("C04"))
 
 MUTANTS = [
+    dict(kind="break", name="state-maps-one-based", file=SN, expect="C04.coupled",
+         old="                        name: no for no, name in enumerate(self.state_names[key])", new="                        name: no for no, name in enumerate(self.state_names[key], 1)"),
+    dict(kind="break", name="default-states-from-first-cardinality", file=SN, expect="C04.coupled",
+         old="                var: list(range(int(cardinality[index])))\n", new="                var: list(range(int(cardinality[0])))\n"),
+    dict(kind="break", name="get-state-no-reads-inverse-map", file=SN, expect="C04.coupled",
+         old="            return self.name_to_no[var][state_name]", new="            return self.no_to_name[var][state_name]"),
     dict(kind="break", name="divide-keeps-nan-for-zero-over-zero", file=DF, expect="C04.zerodiv",
          old="        phi.values[config.get_compute_backend().isnan(phi.values)] = 0\n", new=""),
     dict(kind="break", name="max-empty-axis-means-all", file="pgmpy/utils/compat_fns.py", expect="C04.axes",
